@@ -196,12 +196,7 @@ def run(ctx, ck):
         why = (bad[0][2] if bad else ('%d Pulse(gnd=%d) creations' % (len(sites), K) if len(sites) != 1 else seen[K][0][2]))
         ck.ob('R-PAIR.grounded-pulse', '%s|end%d' % (f.qual, K + 1), ok,
               f.loc(seen[K][0][1].stmt) if seen[K] else f.loc(), why)
-    pi = m.func('pulse.Pulse.__init__')
-    txt = [norm(s) for s in walk_no_nested(pi.node) if isinstance(s, ast.stmt)]
-    ok = 'self.gnd_sgn[self.ground] = -1' in txt and 'self.sign = self.sign * self.gnd_sgn' in txt and \
-        'self.ground[gnd] = True' in txt and 'self.inv_ground = np.array([self.ground[1], self.ground[0]])' in txt
-    ck.ob('R-PAIR.grounded-pulse', pi.qual, ok, pi.loc(),
-          'ground flags, inverse flags, ground sign -1 and sign = direction sign * ground sign')
+    check_pulse_ground_state(ctx, ck)
     from ._sym import check_ground_symmetry
     ck.rule('R-SYM.ground-halves', 'statements selecting one half of the ground flags select the other too')
     nsel, nst = check_ground_symmetry(ctx, ck)
@@ -222,3 +217,75 @@ def run(ctx, ck):
     ck.ob('R-EFFECT.no-object-ground-state', fill.qual + '|closure', not hits, fill.loc(),
           'closure of the matrix fill (%d functions) never reads an object\'s is_ground' % len(seen_))
     ck.undecided += ['numeric equality with the mirrored free-space model', 'gain 3.0103 dB above the free-space pair']
+
+
+def check_pulse_ground_state(ctx, ck):
+    """R-PAIR.grounded-pulse on Pulse.__init__: the state a pulse ends up with, as closed expressions of the
+    symbolic walk (however the statements are written):
+        ground     = [False, False] with entry gnd set when a ground end is given
+        sign       = direction sign, times the ground sign (ones with -1 at the ground flags) where both halves
+                     lie on the same object
+        inv_ground = [ground[1], ground[0]]  (an attribute set by the constructor or a property of the class)"""
+    from ..symx import SymExec
+    m = ctx.model
+    pi = m.func('pulse.Pulse.__init__')
+    paths = [p_ for p_ in SymExec(ctx, pi, depth=2, effects=True).run() if p_.end != 'raise']
+    if not paths:
+        raise AnalysisError('pulse.Pulse.__init__: no symbolic path')
+    G0 = 'np.array([False, False])'
+    bad = None
+    prod_conds, plain_conds = [], []
+    n_ground = 0
+    inv_attr = 0
+    for p_ in paths:
+        conds = {t_: b_ for t_, b_ in p_.conds if isinstance(b_, bool)}
+        given = conds.get('gnd is None')
+        if given is None and 'gnd is not None' in conds:
+            given = not conds['gnd is not None']
+        env = p_.env
+        g_ = norm(env['self.ground']) if 'self.ground' in env else None
+        want_g = G0 if given is True else ('_upd(%s, gnd, True)' % G0 if given is False else None)
+        if want_g is None:
+            raise AnalysisError('pulse.Pulse.__init__: a path does not test whether a ground end is given (%s)' % sorted(conds))
+        if g_ != want_g:
+            bad = bad or 'ground flags are %s where %s' % (g_, 'no ground end is given' if given else 'end gnd is grounded')
+            continue
+        n_ground += given is False
+        sg = conds.get('sgn is None')
+        if sg is None and 'sgn is not None' in conds:
+            sg = not conds['sgn is not None']
+        dirs = '[1, 1]' if sg is True else ('sgn' if sg is False else None)
+        s_ = norm(env['self.sign']) if 'self.sign' in env else None
+        gs = '_upd(np.ones(2), %s, -1)' % want_g
+        if dirs is None:
+            raise AnalysisError('pulse.Pulse.__init__: a path does not test whether direction signs are given')
+        if s_ in ('%s * %s' % (dirs, gs), '%s * %s' % (gs, dirs)):
+            prod_conds.append(conds)
+        elif s_ == dirs:
+            plain_conds.append(conds)
+        else:
+            bad = bad or 'sign is %s (direction sign %s, ground sign %s)' % (s_, dirs, gs)
+        if 'self.inv_ground' in env:
+            inv_attr += 1
+            if norm(env['self.inv_ground']) != 'np.array([%s[1], %s[0]])' % (want_g, want_g):
+                bad = bad or 'inv_ground is %s' % norm(env['self.inv_ground'])[:100]
+    if bad is None and not prod_conds:
+        bad = 'the ground sign never enters the sign of a pulse'
+    if bad is None and plain_conds:
+        # the ground sign is left out only where one and the same test (both halves on one object) fails
+        common = [t_ for t_ in prod_conds[0] if all(c_.get(t_) is True for c_ in prod_conds) and
+                  all(c_.get(t_) is False for c_ in plain_conds)]
+        if not common:
+            bad = 'the ground sign is left out on paths that no single test tells from the others'
+    if bad is None and inv_attr == 0:
+        g = m.resolve_method('Pulse', 'inv_ground')
+        if g is None or g.kind not in ('property', 'cached_property'):
+            bad = 'inv_ground is neither set by the constructor nor a property'
+        else:
+            rets = [p_ for p_ in SymExec(ctx, g, depth=2).run() if p_.end != 'raise']
+            if len(rets) != 1 or rets[0].ret is None or norm(rets[0].ret) != 'np.array([self.ground[1], self.ground[0]])':
+                bad = 'inv_ground is %s' % (norm(rets[0].ret)[:100] if len(rets) == 1 and rets[0].ret is not None else 'not one expression')
+    elif bad is None and inv_attr != len(paths):
+        bad = 'inv_ground is set on some paths only'
+    ck.ob('R-PAIR.grounded-pulse', pi.qual, bad is None and n_ground > 0, pi.loc(),
+          bad or 'ground flags, inverse flags, ground sign -1 and sign = direction sign * ground sign (%d paths)' % len(paths))
